@@ -129,11 +129,12 @@ class CxxParser:
 
     def _pop_state(self) -> State:
         prev_state = self.state
-        prev_state._finish(self.visitor)
-        self.visitor = prev_state._prior_visitor
         state = prev_state.parent
         if state is None:
             raise CxxParseError("INTERNAL ERROR: unbalanced state")
+
+        prev_state._finish(self.visitor)
+        self.visitor = prev_state._prior_visitor
 
         if isinstance(state, NamespaceBlockState):
             self.current_namespace = state.namespace
